@@ -125,15 +125,23 @@ let parse_snapshot (kname : string) (body : string) : psnap =
 (* ---- value tables ------------------------------------------------------ *)
 type vt = int array          (* index = assignment (bit v = variable v), value = code *)
 
+let pow3 (n : int) : int = let rec go k acc = if k = 0 then acc else go (k - 1) (3 * acc) in go n 1
+
+(* TDD (ternary nodes): index = assignment in base 3, digit v = child index taken at variable v
+   (0 = true, 1 = unknown, 2 = false); value = terminal code (0 False, 1 Unknown, 2 True) *)
+let is_tdd (ps : psnap) = (match ps.snap.Model.s_kind with Model.KTdd -> true | _ -> false)
+
 let value_table (ps : psnap) (e : Model.edge) : vt option =
   let n = Array.length ps.l2v in
-  let size = 1 lsl n in
+  let tdd = is_tdd ps in
+  let size = if tdd then pow3 n else 1 lsl n in
   let res = Array.make size (-1) in
   let ok = ref true in
   for a = 0 to size - 1 do
     let c (lvl : Model.nat) : Model.nat =
       let l = int_of_nat lvl in
-      if l < n && (a lsr ps.l2v.(l)) land 1 = 1 then Model.O else Model.S Model.O in
+      if tdd then (if l < n then nat (a / pow3 ps.l2v.(l) mod 3) else Model.O)
+      else if l < n && (a lsr ps.l2v.(l)) land 1 = 1 then Model.O else Model.S Model.O in
     match Model.sem_edge ps.snap e c with
     | Some v -> res.(a) <- int_of_n v
     | None -> ok := false
@@ -155,6 +163,7 @@ let show_vt (t : vt) =
 
 (* extend a table computed over n0 variables to n1 >= n0 variables *)
 let extend_vt (kname : string) (n0 : int) (n1 : int) (t : vt) : vt =
+  if kname = "tdd" then Array.init (pow3 n1) (fun idx -> t.(idx mod pow3 n0)) else
   Array.init (1 lsl n1) (fun idx ->
       let low = idx land ((1 lsl n0) - 1) in
       if kname = "zbdd" then (if idx lsr n0 = 0 then t.(low) else 0) else t.(low))
